@@ -260,7 +260,7 @@ class Fn:
             t = b.get('term')
             if t and t['kind'] in COND_KINDS and len(b['succ']) == 2 and 'cond' in t:
                 c = t['cond']
-                while isinstance(c, dict) and c.get('k') == 'bin' and c['op'] in ('&&', '||'):
+                while isinstance(c, dict) and c.get('k') == 'bin' and c['op'] in ('&&', '||') and not c.get('val'):
                     c = c['r']
                 v = const_value(c) if isinstance(strip(c), dict) and strip(c).get('k') in ('bool', 'int') else None
                 if isinstance(strip(c), dict) and strip(c).get('k') == 'un' and strip(c)['op'] == '!':
@@ -341,7 +341,7 @@ class Fn:
             return c            # evaluated as a value: the whole expression decides
         # For if/while/for/do/?: whose condition is `a && b` / `a || b` the CFG has already
         # branched on the left operands; the value tested here is the rightmost operand.
-        while isinstance(c, dict) and c.get('k') == 'bin' and c['op'] in ('&&', '||'):
+        while isinstance(c, dict) and c.get('k') == 'bin' and c['op'] in ('&&', '||') and not c.get('val'):
             c = c['r']
         return c
 
@@ -405,6 +405,12 @@ class Fn:
             v = _path_const(d)
             if v is None:
                 sd = strip(d)
+                # a copy of a local / field whose constant value is known on this path
+                if isinstance(sd, dict) and sd.get('k') in ('var', 'mem') and _cur_facts[0] is not None:
+                    lk = sd['n'] if sd.get('k') == 'var' else dstr(sd)
+                    for it in _cur_facts[0]:
+                        if it[0].__class__ is tuple and it[0][1] == lk:
+                            return it[1]
                 # the value of a call that can only return false / null (`lexer_.Error(...)`)
                 if isinstance(sd, dict) and sd.get('k') == 'call' and sd.get('fn') in self.prog.functions:
                     callee = self.prog.functions[sd['fn']]
@@ -412,8 +418,11 @@ class Fn:
                         return 0
             return v
 
+        _cur_facts = [None]
+
         def scan(bid, i0, facts):
             evs = self.blocks[bid]['ev']
+            _cur_facts[0] = facts
             for e in evs[i0:]:
                 if is_target(e) and (hit_ok is None or hit_ok(e, facts)):
                     return 'hit', e
@@ -695,6 +704,25 @@ def path_value(fn, d, facts, depth=0):
             return path_value(fn, sd['t'], facts, depth + 1)
         if (ck, not cp) in facts:
             return path_value(fn, sd['f'], facts, depth + 1)
+        return None
+    if sd.get('tk') == 'bool' or sd.get('k') in ('bin', 'un', 'call', 'tobool'):
+        # a condition decided on this path (directly, or `x == A` when the path took `x == B`)
+        ca, cp = norm_cond(fn.prog, sd)
+        ck = dstr(ca)
+        if (ck, cp) in facts:
+            return 1
+        if (ck, not cp) in facts:
+            return 0
+        a = strip(ca)
+        if isinstance(a, dict) and a.get('k') == 'bin' and a.get('op') == '==' and const_value(a['r']) is not None:
+            lk = dstr(strip(a['l']))
+            for it in facts:
+                if it[0].__class__ is tuple and it[0][1] == lk and isinstance(it[1], int):
+                    return 1 if ((it[1] == const_value(a['r'])) == cp) else 0
+            pre = '(' + lk + ' == '
+            for it in facts:
+                if it[0].__class__ is str and it[1] is True and it[0].startswith(pre) and it[0] != ck:
+                    return 0 if cp else 1           # x == B holds on this path, B another constant
     return None
 
 
@@ -783,8 +811,28 @@ def _flip_cmp(op):
     return {'<': '>', '>': '<', '<=': '>=', '>=': '<='}[op]
 
 
+def _drop_iter_conv(d, depth=0):
+    """Iterator conversions (iterator -> const_iterator) are transparent in conditions."""
+    if depth > 12:
+        return d
+    if isinstance(d, list):
+        return [_drop_iter_conv(x, depth + 1) for x in d]
+    if not isinstance(d, dict):
+        return d
+    if d.get('k') == 'ctor' and len(d.get('args') or []) == 1 and 'iterator' in (d.get('ty') or ''):
+        return _drop_iter_conv(d['args'][0], depth + 1)
+    return {k: (_drop_iter_conv(v, depth + 1) if isinstance(v, (dict, list)) else v) for k, v in d.items()}
+
+
 def norm_cond(prog, d, depth=0):
     """Normalise a condition descriptor into (atom descriptor, polarity)."""
+    a, p = _norm_cond_raw(prog, d, depth)
+    if depth == 0 and isinstance(a, dict) and 'iterator' in dstr(a):
+        a = _drop_iter_conv(a)
+    return a, p
+
+
+def _norm_cond_raw(prog, d, depth=0):
     pol = True
     while True:
         d0 = d
@@ -1217,12 +1265,95 @@ PRIM_EFFECTS = {
 }
 
 
+def _make_stable(facts):
+    """Stability oracle for the copy propagation of nv/inline.py: a local defined as `T v = init` may be replaced by
+    `init` at its uses only if nothing `init` reads (locals, fields, receivers of the calls in it, fields read by the
+    accessors it calls) can be written on a way from the definition to a use.  Decided on a provisional Program built
+    from the facts as they are after helper inlining."""
+    cache = {}
+
+    def prog():
+        if 'p' not in cache:
+            cache['p'] = Program(facts, inline=False)
+        return cache['p']
+
+    def stable(fid, name, decl):
+        P = prog()
+        fn = P.functions.get(fid)
+        if fn is None:
+            return False
+        d = None
+        for e in fn.events('decl'):
+            if e['n'] == name:
+                d = e
+        if d is None:
+            return False
+        init = d.get('init')
+        reads = set()
+        for x in walk(init):
+            if x.get('k') == 'var' and x.get('n') != name:
+                reads.add(('var', x['n']))
+            elif x.get('k') == 'mem':
+                reads.add(('mem', x['n']))
+            elif x.get('k') == 'call' and x.get('fn') in P.functions:
+                w = P.trivial_wrapper(x['fn'])
+                if w:
+                    for y in walk(w[1]):
+                        if y.get('k') == 'mem':
+                            reads.add(('mem', y['n']))
+        if not reads:
+            return True
+        writers = []
+        for e in fn.events():
+            if e is d or e['k'] not in ('asg', 'decl', 'call', 'new', 'delete'):
+                continue
+            try:
+                w = _written_names(fn, e) if e['k'] != 'new' else set()
+            except Exception:
+                return False
+            if e['k'] in ('call', 'new'):
+                for t in (P.call_targets(e) if e['k'] == 'call' else {e.get('fn')}):
+                    for fld in P.mod_fields(t):
+                        w.add(('mem', fld))
+            if w & reads and fn.ev_reaches(d, e):
+                writers.append(e)
+        if not writers:
+            return True
+        def mentions(o):
+            return any(x.get('k') == 'var' and x.get('n') == name for x in walk(o))
+        use_ev = {id(e) for e in fn.events() if e is not d and mentions({k: v for k, v in e.items() if not k.startswith('_')})}
+        use_blocks = {b for b, blk in fn.blocks.items() if blk.get('term') and mentions(blk['term'])}
+        # from just after each writer: can a use be reached without passing the definition again?
+        for w in writers:
+            work = [(w['_b'], w['_i'] + 1)]
+            seen = set()
+            while work:
+                b, i0 = work.pop()
+                stop = False
+                for e in fn.blocks[b]['ev'][i0:]:
+                    if e is d:
+                        stop = True
+                        break
+                    if id(e) in use_ev:
+                        return False
+                if stop:
+                    continue
+                if b in use_blocks:
+                    return False
+                for s2 in fn.succ(b):
+                    if s2 is not None and s2 not in seen:
+                        seen.add(s2)
+                        work.append((s2, 0))
+        return True
+    return stable
+
+
 class Program:
     def __init__(self, facts, inline=True):
         self.inline_report = None
         if inline and os.environ.get('NV_NO_INLINE') != '1':
             import inline as _inl
-            facts, self.inline_report = _inl.inline_helpers(facts)
+            facts, self.inline_report = _inl.inline_helpers(facts, make_stable=_make_stable)
         self.facts = facts
         self.functions = {fid: Fn(self, d) for fid, d in facts['functions'].items()}
         self.by_name = collections.defaultdict(list)
